@@ -13,6 +13,7 @@ import (
 	"sort"
 	"sync"
 	"time"
+	"vsim/simrt"
 )
 
 type Delegate interface {
@@ -83,6 +84,7 @@ type Network struct {
 	// evSeq orders delegate invocations; leaveAt[o][l] / mergeAt[o][l] are the sequence numbers of
 	// the last NotifyLeave(l) and the last MergeRemoteState(state of l) that completed at node o.
 	evSeq   int
+	Logf    func(format string, args ...any) // optional trace hook
 	leaveAt map[string]map[string]int
 	mergeAt map[string]map[string]int
 }
@@ -90,6 +92,13 @@ type Network struct {
 func (n *Network) note(tab *map[string]map[string]int, at, about string) {
 	n.mu.Lock()
 	defer n.mu.Unlock()
+	if n.Logf != nil {
+		kind := "merge-of"
+		if tab == &n.leaveAt {
+			kind = "leave-of"
+		}
+		n.Logf("fakeml: at %s %s %s (event %d)", at, kind, about, n.evSeq+1)
+	}
 	if *tab == nil {
 		*tab = map[string]map[string]int{}
 	}
@@ -131,6 +140,10 @@ type Memberlist struct {
 	self    *Node
 	members map[string]*Node // this node's view (includes itself)
 	left    bool
+	// evMu serialises this node's event-delegate notifications: memberlist invokes NotifyJoin /
+	// NotifyLeave / NotifyUpdate one at a time (under its node lock), in the order of the
+	// state changes
+	evMu    sync.Mutex
 	crashed bool // process crash: no leave broadcast, nothing in or out any more
 }
 
@@ -224,11 +237,25 @@ func (m *Memberlist) Join(addrs []string) (int, error) {
 			}
 		}
 		m.net.mu.Unlock()
-		// push/pull (join=true)
+		// push/pull (join=true); a node that crashes while the exchange is under way neither
+		// delivers nor receives the rest of it
+		gone := func() bool {
+			m.net.mu.Lock()
+			defer m.net.mu.Unlock()
+			return m.crashed || peer.crashed
+		}
 		mine := m.cfg.Delegate.LocalState(true)
 		theirs := peer.cfg.Delegate.LocalState(true)
+		if gone() {
+			lastErr = fmt.Errorf("fakeml: connection to %s lost", a)
+			continue
+		}
 		peer.cfg.Delegate.MergeRemoteState(mine, true)
 		m.net.note(&m.net.mergeAt, peer.cfg.Name, m.cfg.Name)
+		if gone() {
+			lastErr = fmt.Errorf("fakeml: connection to %s lost", a)
+			continue
+		}
 		m.cfg.Delegate.MergeRemoteState(theirs, true)
 		m.net.note(&m.net.mergeAt, m.cfg.Name, peer.cfg.Name)
 		ok++
@@ -355,12 +382,42 @@ func (n *Network) Deliver(seq int, keep bool) {
 	case "msg":
 		n.Spawn(name, func() { dst.cfg.Delegate.NotifyMsg(p.Data) })
 	case "join":
+		// memberlist orders a node's alive and dead notices by incarnation: once an observer has
+		// been told that a node is gone, an older "alive" for it is ignored
+		n.mu.Lock()
+		stale := n.leaveAt[dst.cfg.Name][p.Node.Name] > 0
+		if peer := n.nodes[p.Node.Name]; peer == nil || !peer.left {
+			stale = false
+		}
+		n.mu.Unlock()
+		if stale {
+			return
+		}
 		if dst.cfg.Events != nil {
-			n.Spawn(name, func() { dst.cfg.Events.NotifyJoin(p.Node) })
+			n.Spawn(name, func() {
+				simrt.Lock(-1, &dst.evMu)
+				defer simrt.Unlock(&dst.evMu)
+				// notifications reach the event delegate in the order of the state changes: if the
+				// observer has meanwhile been told that the node is gone, this "alive" is the older one
+				n.mu.Lock()
+				late := n.leaveAt[dst.cfg.Name][p.Node.Name] > 0
+				if peer := n.nodes[p.Node.Name]; peer == nil || !peer.left {
+					late = false
+				}
+				n.mu.Unlock()
+				if late {
+					return
+				}
+				dst.cfg.Events.NotifyJoin(p.Node)
+			})
 		}
 	case "update":
 		if dst.cfg.Events != nil {
-			n.Spawn(name, func() { dst.cfg.Events.NotifyUpdate(p.Node) })
+			n.Spawn(name, func() {
+				simrt.Lock(-1, &dst.evMu)
+				defer simrt.Unlock(&dst.evMu)
+				dst.cfg.Events.NotifyUpdate(p.Node)
+			})
 		}
 	case "leave":
 		n.mu.Lock()
@@ -368,6 +425,8 @@ func (n *Network) Deliver(seq int, keep bool) {
 		n.mu.Unlock()
 		if dst.cfg.Events != nil {
 			n.Spawn(name, func() {
+				simrt.Lock(-1, &dst.evMu)
+				defer simrt.Unlock(&dst.evMu)
 				// sequence number taken when the notification starts: a merge whose write lands after
 				// the notification's delete necessarily completes after this point
 				n.note(&n.leaveAt, dst.cfg.Name, p.Node.Name)
